@@ -123,8 +123,12 @@ package meta
 //@   loop 1: invariant (base(results) == base(old(results)) && old(results) != nil) || fresh(results)
 //@   loop 1: exit len(results) == cnt(e, e.longest, haystack, 0, false, normB0(n))
 
-//@ trusted func (*Engine).IsMatch
-//@   requires engineOK(e)
+// IsMatch: verified dispatcher (C01): every strategy's helper decides the reference; helpers not under contract
+// themselves are ASSUMED to (trusted contracts below, one per helper)
+//@ func (*Engine).IsMatch
+//@   props C01 C11
+//@   opt safety=off
+//@   requires leafOK(e) && stratOK(e)
 //@   modifies @searchState
 //@   ensures result == refFound(e, e.longest, haystack, 0)
 
@@ -411,7 +415,10 @@ package meta
 //@ axiom refModeFound: forall e *Engine, h []byte, at int :: refFound(e, true, h, at) == refFound(e, false, h, at)
 //@ spec func pfLink(e *Engine) bool = e.prefilter != nil ==> ((forall l bool, h []byte, at int :: refFound(e, l, h, at) ==> pfOcc(e.prefilter, h, refStart(e, l, h, at))) && (forall h []byte, i int :: pfOcc(e.prefilter, h, i) ==> 0 <= i && i < len(h)))
 //@ spec func btLink(e *Engine) bool = e.boundedBacktracker != nil ==> (forall l bool, h []byte, at int :: btFound(e.boundedBacktracker, l, h, at) == refFound(e, l, h, at))
-//@ spec func leafOK(e *Engine) bool = engineOK(e) && pfLink(e) && btLink(e)
+//@ spec func dfaBoolLink(e *Engine) bool = e.dfa != nil ==> (forall h []byte :: dfaHasMatch(e.dfa, h) == refFound(e, false, h, 0))
+// a complete prefilter's candidate is a match by itself (C17: "a literal marked complete is by itself an entire match")
+//@ spec func pfCompleteLink(e *Engine) bool = (e.prefilter != nil && pfIsComplete(e.prefilter)) ==> (forall l bool, h []byte, i int :: pfOcc(e.prefilter, h, i) ==> refFound(e, l, h, 0))
+//@ spec func leafOK(e *Engine) bool = engineOK(e) && pfLink(e) && btLink(e) && dfaBoolLink(e) && pfCompleteLink(e)
 //@ func (*Engine).isMatchNFA
 //@   props C01 C11
 //@   opt safety=off
@@ -424,3 +431,68 @@ package meta
 //@   loop 1: invariant refFound(e, e.longest, haystack, 0) ==> refFound(e, e.longest, haystack, at)
 //@   loop 1: invariant forall h []byte, p int :: pvFoundAt(state.pikevm, h, p) == refFound(e, e.longest, h, p)
 //@   loop 1: invariant e.boundedBacktracker != nil ==> state.backtracker != nil && state.backtracker.Longest == e.longest
+
+//@ func (*Engine).isMatchDFA
+//@   props C01 C11
+//@   opt safety=off
+//@   requires leafOK(e) && e.dfa != nil
+//@   modifies @searchState
+//@   ensures result == refFound(e, e.longest, haystack, 0)
+//@ func (*Engine).isMatchAdaptive
+//@   props C01 C11
+//@   opt safety=off
+//@   requires leafOK(e)
+//@   modifies @searchState
+//@   ensures result == refFound(e, e.longest, haystack, 0)
+
+// strategy invariants needed by the verified helpers: the DFA strategy has a DFA; the anchored-literal strategy has its
+// info and (ASSUMED, argument in DESIGN S.2/C19) alMatch over it is the reference
+//@ spec func stratOK(e *Engine) bool = (e.strategy == UseDFA ==> e.dfa != nil) && (e.strategy == UseAnchoredLiteral ==> alInfoOK(e.anchoredLiteralInfo) && (forall h []byte :: alMatch(h, e.anchoredLiteralInfo) == refFound(e, false, h, 0)))
+//@ trusted func (*Engine).isMatchReverseAnchored
+//@   requires leafOK(e)
+//@   modifies @searchState
+//@   ensures result == refFound(e, e.longest, haystack, 0)
+//@ trusted func (*Engine).isMatchReverseSuffix
+//@   requires leafOK(e)
+//@   modifies @searchState
+//@   ensures result == refFound(e, e.longest, haystack, 0)
+//@ trusted func (*Engine).isMatchReverseSuffixSet
+//@   requires leafOK(e)
+//@   modifies @searchState
+//@   ensures result == refFound(e, e.longest, haystack, 0)
+//@ trusted func (*Engine).isMatchReverseInner
+//@   requires leafOK(e)
+//@   modifies @searchState
+//@   ensures result == refFound(e, e.longest, haystack, 0)
+//@ trusted func (*Engine).isMatchMultilineReverseSuffix
+//@   requires leafOK(e)
+//@   modifies @searchState
+//@   ensures result == refFound(e, e.longest, haystack, 0)
+//@ trusted func (*Engine).isMatchBoundedBacktracker
+//@   requires leafOK(e)
+//@   modifies @searchState
+//@   ensures result == refFound(e, e.longest, haystack, 0)
+//@ trusted func (*Engine).isMatchCharClassSearcher
+//@   requires leafOK(e)
+//@   modifies @searchState
+//@   ensures result == refFound(e, e.longest, haystack, 0)
+//@ trusted func (*Engine).isMatchCompositeSearcher
+//@   requires leafOK(e)
+//@   modifies @searchState
+//@   ensures result == refFound(e, e.longest, haystack, 0)
+//@ trusted func (*Engine).isMatchBranchDispatch
+//@   requires leafOK(e)
+//@   modifies @searchState
+//@   ensures result == refFound(e, e.longest, haystack, 0)
+//@ trusted func (*Engine).isMatchTeddy
+//@   requires leafOK(e)
+//@   modifies @searchState
+//@   ensures result == refFound(e, e.longest, haystack, 0)
+//@ trusted func (*Engine).isMatchDigitPrefilter
+//@   requires leafOK(e)
+//@   modifies @searchState
+//@   ensures result == refFound(e, e.longest, haystack, 0)
+//@ trusted func (*Engine).isMatchAhoCorasick
+//@   requires leafOK(e)
+//@   modifies @searchState
+//@   ensures result == refFound(e, e.longest, haystack, 0)
